@@ -35,8 +35,9 @@ def bounds(tier):
     return {"quick": "512 node assignments, 3^6 per-DOF strings", "thorough": "512 node assignments, 5^6 per-DOF strings"}.get(tier, "")
 
 
-def build_table(letters_g1, letter_sp, letters_g2):
-    """letters_g1/g2: 6 letters (per DOF) ; letter_sp: 1 letter.  returns (uset, list of (id, dof, letter))"""
+def build_table(letters_g1, letter_sp, letters_g2, compact=()):
+    """letters_g1/g2: 6 letters (per DOF) ; letter_sp: 1 letter.  returns (uset, list of (id, dof, letter)).
+    compact: grid ids handed to make_uset in the one-row form [id, 123456] (needs uniform letters for that grid)"""
     from pyyeti.nastran import n2p
 
     rows = []
@@ -46,6 +47,11 @@ def build_table(letters_g1, letter_sp, letters_g2):
             dof.append([gid, 0])
             sets.append(letters)
             rows.append((gid, 0, letters))
+        elif gid in compact:
+            assert len(set(letters)) == 1
+            dof.append([gid, 123456])
+            sets.append(letters[0])
+            rows.extend((gid, i + 1, ch) for i, ch in enumerate(letters))
         else:
             for i, ch in enumerate(letters):
                 dof.append([gid, i + 1])
@@ -320,21 +326,28 @@ def check_locate(res, which):
                         if tf.tolist() != [i in pv for i in range(nn)] or fl.tolist() != [i for i in range(nn) if i not in pv]:
                             msgs.append("index2bool/flippv(%s, %d) wrong" % (pv, nn))
     else:
-        sym = "abcd"
-        lists = [list(c) for n in range(0, 5) for c in itertools.permutations(sym, n)]
-        for l1 in lists[::2]:
-            for l2 in lists[::3]:
-                m, p1, p2 = locate.merge_lists(l1, l2)
-                res.ev("merge_lists/%d/%d" % (len(l1), len(l2)))
-                ok = ([m[i] for i in p1] == l1 and [m[i] for i in p2] == l2 and sorted(m) == sorted(set(l1) | set(l2)) and len(set(m)) == len(m)
-                      and p1 == sorted(p1))
-                if not ok:
-                    msgs.append("merge_lists(%s, %s) -> %s %s %s violates its defining relations" % (l1, l2, m, p1, p2))
-                if m is l1:
-                    msgs.append("merge_lists returned list1 itself")
-                i1, i2 = locate.list_intersect(l1, l2)
-                if [l1[i] for i in i1] != [l2[i] for i in i2] or sorted(l1[i] for i in i1) != sorted(set(l1) & set(l2)) or list(i1) != sorted(i1):
-                    msgs.append("list_intersect(%s, %s) -> %s %s wrong" % (l1, l2, i1, i2))
+        # string labels, and heterogeneous labels compared with Python equality (an int and the string of its digits
+        # are different items; tuples and None are legal list items)
+        for sym, st1, st2 in (("abcd", 2, 3), ([10, "10", ("g", 1), None, "x"], 1, 2)):
+            lists = [list(c) for n in range(0, 5) for c in itertools.permutations(sym, n)]
+            for l1 in lists[::st1]:
+                for l2 in lists[::st2]:
+                    try:
+                        m, p1, p2 = locate.merge_lists(l1, l2)
+                        i1, i2 = locate.list_intersect(l1, l2)
+                    except Exception as e:  # noqa
+                        msgs.append("merge_lists/list_intersect(%s, %s) raised %r" % (l1, l2, e))
+                        continue
+                    res.ev("merge_lists/%s/%d/%d" % ("str" if sym == "abcd" else "mixed", len(l1), len(l2)))
+                    ok = ([m[i] for i in p1] == l1 and [m[i] for i in p2] == l2 and set(m) == set(l1) | set(l2) and len(set(m)) == len(m)
+                          and list(p1) == sorted(p1))
+                    if not ok:
+                        msgs.append("merge_lists(%s, %s) -> %s %s %s violates its defining relations" % (l1, l2, m, p1, p2))
+                    if m is l1:
+                        msgs.append("merge_lists returned list1 itself")
+                    common = set(l1) & set(l2)
+                    if ([l1[i] for i in i1] != [l2[i] for i in i2] or set(l1[i] for i in i1) != common or len(i1) != len(common) or list(i1) != sorted(i1)):
+                        msgs.append("list_intersect(%s, %s) -> %s %s wrong" % (l1, l2, list(i1), list(i2)))
         for seq in itertools.product((0, 1, 2), repeat=5):
             for sub in ((1,), (0, 1), (1, 1), (2, 0, 1)):
                 got = locate.find_subseq(seq, sub)
@@ -407,6 +420,8 @@ def shards(tier, seed):
     nper = len(alpha) ** 6
     for k in range(16):
         out.append(dict(part="perdof", k=k, step=16, alpha=alpha, tier=tier))
+    for k in range(4):
+        out.append(dict(part="mixedform", k=k, step=4, alpha=alpha, tier=tier))
     for w in ("mat_intersect", "index", "lists", "dtypes"):
         out.append(dict(part="locate", which=w, tier=tier))
     r = seed % len(out)
@@ -439,6 +454,24 @@ def run_shard(sh):
             for m in msgs:
                 res.viol(dict(part="perdof", letters=s), m, kind="perdof-" + m.split("(")[0][:25])
         res.sample(dict(part="perdof", letters=s))
+    elif sh["part"] == "mixedform":
+        # tables in MIXED form: one grid as six rows with per-DOF sets, the other as one [id, 123456] row (and both compact)
+        sub = [p for p in pairs if set(p[0].split("+") + p[1].split("+")) <= set("bcqoslatfn") | {"b+q", "c+r", "o+s", "a+o"}][::5]
+        for i, letters in enumerate(itertools.product(sh["alpha"], repeat=6)):
+            if i % sh["step"] != sh["k"]:
+                continue
+            s = "".join(letters)
+            u = sh["alpha"][i % len(sh["alpha"])]
+            for g1, g2, comp in ((s, u * 6, (30,)), (u * 6, s, (10,)), (u * 6, s[0] * 6, (10, 30))):
+                try:
+                    uset, rows = build_table(g1, "q", g2, compact=comp)
+                    msgs = check_table(uset, rows, res, sub)
+                except Exception as e:  # noqa
+                    msgs = ["make_uset with a mixed-form DOF list raised %r" % (e,)]
+                res.ev("mixedform/%s/%s" % ("".join(sorted(set(s))), "+".join(map(str, comp))), outcome=s, n=len(sub))
+                for m in msgs:
+                    res.viol(dict(part="mixedform", g1=g1, g2=g2, compact=list(comp)), m, kind="mixedform-" + m.split("(")[0][:25])
+        res.sample(dict(part="mixedform", letters=s))
     elif sh["part"] == "addgrid_hist":
         for m in addgrid_history(sh["alpha"], sh["k"], sh["step"], res):
             res.viol(dict(sh), m, kind="addgrid-history")
@@ -461,6 +494,12 @@ def replay(case):
         s = case["letters"]
         uset, rows = build_table(s, "q", s[::-1])
         return check_table(uset, rows, res, pairs) + check_dofpv(uset, rows, res)
+    if case["part"] == "mixedform":
+        try:
+            uset, rows = build_table(case["g1"], "q", case["g2"], compact=tuple(case["compact"]))
+            return check_table(uset, rows, res, pairs)
+        except Exception as e:  # noqa
+            return ["make_uset with a mixed-form DOF list raised %r" % (e,)]
     if case["part"] == "addgrid_hist":
         return addgrid_history(case["alpha"], case["k"], case["step"], res)
     return check_locate(res, case["which"])
